@@ -369,6 +369,15 @@ func (it *k4interp) lookup(key string, t types.Type) (k4val, error) {
 		}
 		key = it.mem[best].s + key[len(best):]
 	}
+	if strings.HasPrefix(key, "zero.") || strings.HasPrefix(key, "zero[") {
+		// a field/element of a zero-value aggregate
+		if isBoolT(t) {
+			return k4val{kind: 1, b: false}, nil
+		}
+		if isNumeric(t) {
+			return k4val{kind: 2, f: 0}, nil
+		}
+	}
 	if strings.HasPrefix(key, "L") && strings.Contains(key, ":") && !strings.Contains(key, "$") {
 		// never-written local: zero value
 		if isBoolT(t) {
